@@ -15,7 +15,8 @@ class Context:
         self.tier = tier
         self.seed = seed
         self.root = root or repo_root()
-        self.repo = Repo(self.root, with_clients=True)
+        # C20 links every call site in the repository; the other properties only need the demos (pipelines, slots)
+        self.repo = Repo(self.root, with_clients="all" if (prop == "C20" or tier == "thorough") else ("demos",))
         self.result = Result(prop, tier, seed)
         self.result.analysed = {
             "repo": self.root,
